@@ -8,6 +8,8 @@ fs = frozenset
 EXIT = "std::process::exit"
 STDOUT_WRITES = re.compile(r"^(std::io::_print$|std::io::Write::(write|write_all|write_fmt)$|serde_json::to_writer(_pretty)?$|std::io::_eprint$)")
 
+PER_CONFIG = False
+
 EXPLANATION = (
     "Decided from the CLI's MIR (analysed with the same driver against the library's default configuration): (1) delegation "
     "without transformation — the expression text (positional argument, or the contents of the --expr-file) reaches "
@@ -32,11 +34,11 @@ ASSUMPTIONS = [
 
 def run(ctx):
     jp = ctx.jp()
-    check_delegation(ctx, jp)
-    check_show_result(ctx, jp)
-    check_ast(ctx, jp)
-    check_failure(ctx, jp)
-    check_panics(ctx, jp)
+    ctx.attempt("check_delegation", check_delegation, ctx, jp)
+    ctx.attempt("check_show_result", check_show_result, ctx, jp)
+    ctx.attempt("check_ast", check_ast, ctx, jp)
+    ctx.attempt("check_failure", check_failure, ctx, jp)
+    ctx.attempt("check_panics", check_panics, ctx, jp)
 
 
 def value_of(name):
